@@ -605,6 +605,19 @@ def run_property(pid, tier, seed):
         broken.append('correspondence broken at stage(s) %s (first: stage %s)' % (sorted(stage_diffs), first_diff['stage']))
     res['first_diff'] = first_diff
     res['stats'].update({'cases': len(allc), 'corpus': ncorp, 'compared': compared, 'stage_diffs': stage_diffs})
+    # the model of the regex crate (Engine/*.v) is validated against the real crate on every run of the
+    # properties whose theorems speak about parsing/matching
+    if pid in ('C01', 'C02', 'C06', 'C07', 'C08', 'C11') and st['driver_ok']:
+        import engineval
+        nval = 250 if tier == 'quick' else 4000
+        ev = engineval.run(seed + 1, nval)
+        sv = engineval.validate_semantics(seed + 1, nval)
+        if 'error' in ev or ev.get('disagree'):
+            broken.append('engine parser model disagrees with regex_syntax: %s' % (ev.get('error') or json.dumps(ev['disagree'][0])[:300]))
+        if 'error' in sv or sv.get('full_disagree') or sv.get('find_disagree'):
+            broken.append('engine matching model disagrees with the regex crate: %s' % (sv.get('error') or json.dumps((sv['full_disagree'] + sv['find_disagree'])[0])[:300]))
+        res['stats']['engine_model'] = {'parser_patterns': ev.get('total'), 'parser_agree': ev.get('agree'), 'parser_model_rejects_only': ev.get('model_rejects_only'),
+                                        'semantics_patterns': sv.get('patterns'), 'semantics_haystacks': sv.get('haystacks')}
     # oracles on the implementation
     def fails_of(c, r):
         out = []
@@ -744,6 +757,7 @@ def finish(pid, res):
         'broken': res['broken'][:20],
         'known_findings': res['known'],
         'timing': {k: stats.get(k) for k in ('t_impl', 't_model')},
+        'engine_model_validation': stats.get('engine_model'),
     }
     ev = {'property_id': pid, 'tier': tier if tier in ('quick', 'thorough') else 'quick', 'seed': seed, 'level': 'proof', 'coverage': cov,
           'assumptions': ['lower_idem: to_lowercase is idempotent on every lower-cased test case (checked per case by the harness)',
